@@ -4,6 +4,7 @@ import (
 	"fmt"
 	"math"
 	"regexp"
+	"strconv"
 	Time "time"
 )
 
@@ -282,6 +283,20 @@ func dateParse(date string) float64 {
 		}
 	}
 
+	// 15.9.1.15.1 expanded years: a sign and six digits.  time.Parse only knows
+	// four-digit years, so parse the same year of the 400-year cycle starting
+	// at 2000 (same calendar) and shift the result by whole cycles.
+	shift := 0
+	if len(date) >= 7 && (date[0] == '+' || date[0] == '-') {
+		year, yearErr := strconv.Atoi(date[:7])
+		if yearErr != nil || (year == 0 && date[0] == '-') {
+			return math.NaN()
+		}
+		inCycle := 2000 + (year%400+400)%400
+		date = strconv.Itoa(inCycle) + date[7:]
+		shift = year - inCycle
+	}
+
 	for _, layout := range dateLayoutList {
 		time, err = Time.Parse(layout, date)
 		if err == nil {
@@ -293,5 +308,9 @@ func dateParse(date string) float64 {
 		return math.NaN()
 	}
 
-	return float64(time.UnixMilli())
+	epoch := float64(time.AddDate(shift, 0, 0).UnixMilli())
+	if math.Abs(epoch) > maxTimeValue {
+		return math.NaN()
+	}
+	return epoch
 }
